@@ -297,6 +297,8 @@ E2E_CASES = [
     "hx_select_e2e::sel::fast", "hx_select_e2e::sel::quick::gen::i32", "hx_select_e2e::sel::quick::gen::u8",
     "hx_select_e2e::sel::shape::String::1", "hx_select_e2e::sel::shape::Square::2", "hx_select_e2e::sel::shape::Vec<alloc::string::String>::1",
     "hx_select_e2e::sel::shape::String::2", "hx_select_e2e::sel::quick::gen::i32",
+    "hx_select_e2e::sel::dup_args::7", "hx_select_e2e::sel::dup_args::8", "hx_select_e2e::sel::lossy::1", "hx_select_e2e::sel::lossy::2",
+    "hx_select_e2e::sel::dup_args::7", "hx_select_e2e::sel::lossy::1",
 ]
 E2E_INNER = ["hx_select_e2e::sel::quick", "hx_select_e2e::sel::quick::gen", "hx_select_e2e::sel::shape::String", "hx_select_e2e::sel::shape",
              "hx_select_e2e::sel::shape::Square", "hx_select_e2e::sel::fast::gen::i32", "hx_select_e2e::sel::shape::alloc::string::String::1",
@@ -435,8 +437,11 @@ def e2e_impl_runner(ctx):
             if rc1 != 0 or rc2 != 0 or rc3 != 0 or not tline.startswith("#T"):
                 lines.append(f"crash rc={rc1},{rc2},{rc3} {(err1 + err2 + err3).strip().splitlines()[-1:] } {tline[:40]}")
                 continue
-            ran = sorted(set(E.enc(t) for t in E.ran_tags(err1)))
-            listed = sorted(set(E.enc(c) for c in E.terse_cases(out2)))
+            # one execution per selected case: multiplicities count (two arguments with the same label are two cases);
+            # the option benchmarks (mod opt) run once per thread in test mode, those are taken as a set
+            tags = E.ran_tags(err1)
+            ran = sorted([E.enc(t) for t in tags if "::opt::" not in t] + list(set(E.enc(t) for t in tags if "::opt::" in t)))
+            listed = sorted(E.enc(c) for c in E.terse_cases(out2))
             leaves = sorted(E.enc(p) for p, leaf, _ in E.tree_paths(E.parse_tree(out3)) if leaf)
             rows = iter(t for t in tline[2:].split(" ") if t)
             trows = [next(rows) if o[1] != "e" else "x" for o in ops]
